@@ -72,6 +72,7 @@ pub struct Emitter {
     pub hist: BTreeMap<String, u64>,
     pub n: u64,
     pub samples: Vec<String>,
+    pub oracle_failures: Vec<String>,
 }
 
 impl Emitter {
@@ -83,6 +84,7 @@ impl Emitter {
             hist: BTreeMap::new(),
             n: 0,
             samples: vec![],
+            oracle_failures: vec![],
         }
     }
     /// Record one case: the request line and the implementation's answer (PANIC if it unwinds).
@@ -106,7 +108,8 @@ impl Emitter {
     pub fn count(&mut self, class: &str) {
         *self.hist.entry(class.to_string()).or_insert(0) += 1;
     }
-    pub fn finish(mut self, dir: &Path, extra: serde_json::Value) {
+    pub fn finish(mut self, dir: &Path, mut extra: serde_json::Value) {
+        extra["oracle_failures"] = serde_json::json!(self.oracle_failures);
         self.req.flush().unwrap();
         self.ans.flush().unwrap();
         let meta = serde_json::json!({
